@@ -150,9 +150,28 @@ _sodium_runtime_arm_cpu_features(CPUFeatures * const cpu_features)
     return 0;
 }
 
+#ifdef SODIUM_VERIF
+/* verification hook H2: synthetic CPUID/XGETBV register values (NULL = real CPU) */
+static const uint32_t *_sodium_verif_regs; /* [0]=leaf0.eax [1]=leaf1.ecx [2]=leaf1.edx [3]=leaf7.ebx [4]=xcr0 */
+#endif
+
 static void
 _cpuid(unsigned int cpu_info[4U], const unsigned int cpu_info_type)
 {
+#ifdef SODIUM_VERIF
+    if (_sodium_verif_regs != NULL) {
+        cpu_info[0] = cpu_info[1] = cpu_info[2] = cpu_info[3] = 0;
+        if (cpu_info_type == 0x0) {
+            cpu_info[0] = _sodium_verif_regs[0];
+        } else if (cpu_info_type == 0x00000001) {
+            cpu_info[2] = _sodium_verif_regs[1];
+            cpu_info[3] = _sodium_verif_regs[2];
+        } else if (cpu_info_type == 0x00000007) {
+            cpu_info[1] = _sodium_verif_regs[3];
+        }
+        return;
+    }
+#endif
     /*
      * Visual Studio has a __cpuid() intrinsic with 2 parameters,
      * but clang defines _MSC_VER as an incompatible __cpuid() macro
@@ -266,6 +285,11 @@ _sodium_runtime_intel_cpu_features(CPUFeatures * const cpu_features)
                              : "c"((uint32_t) 0U)
                              : "%edx");
 # endif
+# ifdef SODIUM_VERIF
+        if (_sodium_verif_regs != NULL) {
+            xcr0 = _sodium_verif_regs[4];
+        }
+# endif
         if ((xcr0 & (XCR0_SSE | XCR0_AVX)) == (XCR0_SSE | XCR0_AVX)) {
             cpu_features->has_avx = 1;
         }
@@ -315,6 +339,56 @@ _sodium_runtime_intel_cpu_features(CPUFeatures * const cpu_features)
     return 0;
 }
 
+#ifdef SODIUM_VERIF
+# include <stdlib.h>
+# include <string.h>
+/* verification hook H2: run the decoder on synthetic register values */
+int
+_sodium_verif_decode_cpu_features(const uint32_t in[5], int out[10])
+{
+    CPUFeatures f;
+    int         ret;
+
+    memset(&f, 0, sizeof f);
+    _sodium_verif_regs = in;
+    ret = _sodium_runtime_intel_cpu_features(&f);
+    _sodium_verif_regs = NULL;
+    out[0] = f.has_sse2;
+    out[1] = f.has_sse3;
+    out[2] = f.has_ssse3;
+    out[3] = f.has_sse41;
+    out[4] = f.has_avx;
+    out[5] = f.has_avx2;
+    out[6] = f.has_avx512f;
+    out[7] = f.has_pclmul;
+    out[8] = f.has_aesni;
+    out[9] = f.has_rdrand;
+
+    return ret;
+}
+
+/* verification hook H1: clear the detected features named in SODIUM_VERIF_CPU_DISABLE */
+static void
+_sodium_verif_apply_cpu_mask(CPUFeatures * const f)
+{
+    const char *e = getenv("SODIUM_VERIF_CPU_DISABLE");
+
+    if (e == NULL) {
+        return;
+    }
+    if (strstr(e, "sse2") != NULL) f->has_sse2 = 0;
+    if (strstr(e, "pni") != NULL) f->has_sse3 = 0;
+    if (strstr(e, "ssse3") != NULL) f->has_ssse3 = 0;
+    if (strstr(e, "sse41") != NULL) f->has_sse41 = 0;
+    if (strstr(e, "avx1") != NULL) f->has_avx = 0;
+    if (strstr(e, "avx2") != NULL) f->has_avx2 = 0;
+    if (strstr(e, "avx512f") != NULL) f->has_avx512f = 0;
+    if (strstr(e, "pclmul") != NULL) f->has_pclmul = 0;
+    if (strstr(e, "aesni") != NULL) f->has_aesni = 0;
+    if (strstr(e, "rdrand") != NULL) f->has_rdrand = 0;
+}
+#endif
+
 int
 _sodium_runtime_get_cpu_features(void)
 {
@@ -322,6 +396,9 @@ _sodium_runtime_get_cpu_features(void)
 
     ret &= _sodium_runtime_arm_cpu_features(&_cpu_features);
     ret &= _sodium_runtime_intel_cpu_features(&_cpu_features);
+#ifdef SODIUM_VERIF
+    _sodium_verif_apply_cpu_mask(&_cpu_features);
+#endif
     _cpu_features.initialized = 1;
 
     return ret;
